@@ -32,7 +32,7 @@ PROBES = ['compile_race_second_thread_blocked_on_cooklock',
           'strategy_write_biased', 'switch_right_after_attribute_write',
           'one_thread_failed_others_fine', 'parse_error_template',
           'sort_expr_per_thread', 'shared_sub_template', 'tree_tag',
-          'callback_yield_switch']
+          'callback_yield_switch', 'second_call_of_a_thread']
 RULE = ('templates: generator-A programs over every block tag (per-thread '
         'call-back answers, tokens carry the thread tag) and compositions '
         'of hand-written fragments (sort_expr / reverse_expr / batch '
@@ -78,7 +78,9 @@ def gen_case(seed, tier):
             'bad_source': r.random() < 0.03,
             'nsched': r.choice([12, 20, 30]) if tier == 'quick'
             else r.choice([30, 60, 100]),
-            'sched_seed': r.randint(0, 10 ** 9), 'segments': None}
+            'sched_seed': r.randint(0, 10 ** 9), 'segments': None,
+            'calls': r.choice([1, 1, 2]),
+            'exhaust_one': tier == 'thorough' and r.random() < 0.5}
     if family == 'gen':
         enabled = [x for x in c08.ALL_KINDS if r.random() < 0.6]
         for must in ('var', r.choice(['in', 'with', 'let', 'try', 'sub',
@@ -214,18 +216,28 @@ def thread_fn(case, i, t):
                                'URL': 'http://h/p', 'RESPONSE': c08.Resp()}
             env.extra_names.update(case.get('req', {}))
             kw = env.namespace(case['names'])
-            try:
-                return ['val', M.describe(norm(t(None, {'pre1': i}, **kw)))]
-            except Exception as e:
-                return ['raise', type(e).__name__, norm(str(e))[:300]]
+            outs = []
+            for _ in range(case.get('calls', 1)):
+                try:
+                    outs.append(['val', M.describe(norm(
+                        t(None, {'pre1': i}, **kw)))])
+                except Exception as e:
+                    outs.append(['raise', type(e).__name__,
+                                 norm(str(e))[:300]])
+            return outs
     else:
         def fn():
-            client, mapping, kw, hook, watch = c17.build_inputs(
-                th['inputs'], th.get('plan') or {}, None)
-            try:
-                return ['val', M.describe(norm(t(client, mapping, **kw)))]
-            except Exception as e:
-                return ['raise', type(e).__name__, norm(str(e))[:300]]
+            outs = []
+            for _ in range(case.get('calls', 1)):
+                client, mapping, kw, hook, watch = c17.build_inputs(
+                    th['inputs'], th.get('plan') or {}, None)
+                try:
+                    outs.append(['val', M.describe(norm(
+                        t(client, mapping, **kw)))])
+                except Exception as e:
+                    outs.append(['raise', type(e).__name__,
+                                 norm(str(e))[:300]])
+            return outs
     return fn
 
 
@@ -327,8 +339,11 @@ def judge(case, sim, expected):
             if not any(('@%d' % j) in text for j in range(len(sim.th))
                        if j != i):
                 kind = 'wrong_result'
-            if got[0] != expected[i][0]:
-                kind = 'outcome_kind:%s->%s' % (expected[i][0], got[0])
+            if isinstance(got[0], list) and len(got) == len(expected[i]):
+                for g_, e_ in zip(got, expected[i]):
+                    if g_[0] != e_[0]:
+                        kind = 'outcome_kind:%s->%s' % (e_[0], g_[0])
+                        break
             del mine
             v.append({'rule': 'result', 'key': 'result:' + kind,
                       'detail': {'thread': i, 'got': got,
@@ -400,8 +415,8 @@ def run_case(case):
         probe('strategy_' + name)
         if inside:
             nontrivial.add(core.chash([chash, sim.switches]))
-        if not vs and any(e[0] == 'raise' for e in expected) and any(
-                e[0] == 'val' for e in expected) and inside and (
+        if not vs and any(e[0][0] == 'raise' for e in expected) and any(
+                e[0][0] == 'val' for e in expected) and inside and (
                 case['threads'][0].get('plan') or any(
                     t.get('plan') for t in case['threads'])):
             probe('one_thread_failed_others_fine')
@@ -410,11 +425,40 @@ def run_case(case):
     if case.get('segments') is not None:
         violations += one('replay', S.SegmentPolicy(case['segments']), False)
     else:
+        if case.get('exhaust_one'):
+            r = core.stream(case['sched_seed'], 'exhaust')
+            k = case['nthreads']
+            for a in range(k):
+                prof = profiles[a]
+                first = {}
+                occs = {}
+                for idx, ln in enumerate(prof):
+                    first.setdefault(ln, idx)
+                    occs.setdefault(ln, []).append(idx)
+                for ln in sorted(first):
+                    targets = {first[ln]}
+                    if len(occs[ln]) > 1:
+                        targets.add(r.choice(occs[ln][1:]))
+                    for n in sorted(targets):
+                        if violations:
+                            break
+                        others = [t for t in range(k) if t != a]
+                        r.shuffle(others)
+                        segs = [[a, n]] + [[t, FOREVER] for t in others] + \
+                            [[a, FOREVER]]
+                        used_lines.add((a, ln))
+                        violations += one('one_preemption',
+                                          S.SegmentPolicy(segs), False)
+            probe('single_preemption_stratum_exhausted')
         for j in range(case['nsched']):
+            if violations:
+                break
             name, policy, track = schedule_for(case, j, profiles, used_lines)
             violations += one(name, policy, track)
             if violations:
                 break
+    if case.get('calls', 1) > 1:
+        probe('second_call_of_a_thread')
     if case['nthreads'] == 3:
         probe('three_threads')
     if case['precooked']:
@@ -423,7 +467,7 @@ def run_case(case):
         probe('restricted_eval_variant')
     if case['opcode']:
         probe('opcode_granularity')
-    if case['bad_source'] and all(e[0] == 'raise' for e in expected):
+    if case['bad_source'] and all(e[0][0] == 'raise' for e in expected):
         probe('parse_error_template')
     if 'sort_expr' in case['src']:
         probe('sort_expr_per_thread')
